@@ -140,6 +140,9 @@ def message_table():
         ("GeckoHelloProtocolHandler", "client", [b"IOS02ac6d28"], {"_client_identifier": b"IOS02ac6d28", "was_broadcast_discovery": False}, "HELLO client"),
         ("GeckoHelloProtocolHandler", "response", [b"SPA01:02:03:04:05:06", "My Spa"],
          {"_spa_identifier": b"SPA01:02:03:04:05:06", "_spa_name": "My Spa"}, "HELLO reply"),
+        # the shape a spa answers with: active reminders followed by padding slots that all carry the same (invalid) type
+        ("GeckoRemindersProtocolHandler", "response", [[(1, sfield("days0", 16)), (0, sfield("days1", 16)), (3, sfield("days2", 16)), (0, sfield("days3", 16)), (0, sfield("days4", 16))]],
+         {"reminders": ("reminders", [(1, "days0"), (0, "days1"), (3, "days2"), (0, "days3"), (0, "days4")])}, "RMREQ with repeated types"),
     ]
 
 
@@ -685,10 +688,12 @@ def verb_table(ctx, repo):
             h = c.methods.get(hn)
             if h is None:
                 continue
+            params_ = [a_.arg for a_ in h.node.args.posonlyargs + h.node.args.args]
+            rb_ = params_[1] if len(params_) > 1 else "received_bytes"      # the datagram: the first parameter after self, whatever it is called
             for node in ast.walk(h.node):
-                if isinstance(node, ast.Assign) and isinstance(node.value, ast.Subscript) and ast.unparse(node.value.value) == "received_bytes":
+                if isinstance(node, ast.Assign) and isinstance(node.value, ast.Subscript) and ast.unparse(node.value.value) == rb_:
                     sl = node.value.slice
-                    if isinstance(sl, ast.Slice) and sl.upper is None and sl.lower is not None and ast.unparse(node.targets[0]) == "remainder":
+                    if isinstance(sl, ast.Slice) and sl.upper is None and sl.lower is not None and len(node.targets) == 1 and isinstance(node.targets[0], ast.Name):
                         n += 1
                         ctx.ob("R1", f"{h.qual}::verb-offset", repo.try_fold(sl.lower, h.mod, h.cls) == 5, f"{h.qual}: payload sliced at {ast.unparse(sl.lower)}, verbs are 5 bytes", loc(h, node))
     ctx.floor("R1", "payload slice sites", n, 6)
